@@ -785,6 +785,7 @@ def compare_run(ck: Check, drv, cfg, res, label):
                  "adaptors": [{"type": a["type"], "calls": 0, "accepted": 0, "counter": 0, "x": 0.0, "xbar": 0.0, "sbar": 0.0}
                               for a in o.get("adaptors", [])]} for o in cfg["ops"]]
     epoch, acc_total = 1, 0
+    failed_ops = set()
     sizes = [len(v) for v in state]
     for it, r in enumerate(recs):
         tape_w, counts = enc_tape(r["events"])
@@ -839,7 +840,10 @@ def compare_run(ck: Check, drv, cfg, res, label):
         has_dual = any(a["type"] == "dual" for a in cfg["ops"][r["op"]].get("adaptors", []))
         # after a FAILED proposal MCMC.run hands tune `torch.zeros_like(hastings_ratio)`, a float32 zero (the operators'
         # `torch.tensor(float("inf"))` is float32): dual averaging then computes its statistic in float32
-        dual_tol = 1e-6 if not math.isfinite(r["hr"]) else 1e-8
+        # ... and s_bar stays a float32 tensor for the rest of the run: 1e-6 once any proposal of this operator failed
+        if not math.isfinite(r["hr"]):
+            failed_ops.add(r["op"])
+        dual_tol = 1e-6 if r["op"] in failed_ops else 1e-8
         if not close(m["scale"], r["scale_after"], 1e-6 if okind == "block" else dual_tol if has_dual else 1e-12):
             bad.append(f"scale after tuning (model {m['scale']}, impl {r['scale_after']})")
         if (m["adapt_count"], m["accept"], m["reject"], m["window"]) != (r["adapt_count"], r["n_accept"], r["n_reject"], r["window"]):
